@@ -1645,6 +1645,13 @@ loop:
 			}
 
 			break loop
+		case FramePushPromise:
+			// Stream 0 cannot carry a promise, push enabled or not (RFC 7540
+			// 6.6), and we have said it is not: dropping the frame like an
+			// unknown one would keep a connection whose peer ignores that.
+			err = NewGoAwayError(ProtocolError, "PUSH_PROMISE on stream 0")
+
+			break loop
 		}
 
 		ReleaseFrameHeader(fr)
